@@ -24,7 +24,7 @@ for sid in ids:
             out = p.stdout.decode(errors='replace'); rc = p.returncode
         finally:
             subprocess.run("git -C /repo checkout -- .", shell=True)
-        viol = re.findall(r'^VIOLATION property=\S+ replay=(\S+)\n  obligation (\S+) \((\w+)\)', out, re.M)
+        viol = re.findall(r'^VIOLATION property=\S+ replay=(\S+)\n  obligation (\S+) \(([\w ]+)\)', out, re.M)
         obl = sorted(set(o for _, o, _ in viol))
         res["runs"].append({"check": chk, "cmd": f"/verif/bin/gosym check {chk} --tier quick", "exit": rc, "violations": len(viol),
                             "obligations": obl[:8], "inconclusive": len(re.findall(r'^INCONCLUSIVE', out, re.M)), "wall_s": round(time.time() - t0, 1)})
